@@ -39,14 +39,18 @@ func (t *CSVFormatter) Write(values []octosql.Value) error {
 	var builder strings.Builder
 	row := make([]string, len(values))
 	for i := range values {
-		FormatCSVValue(&builder, values[i])
+		if err := FormatCSVValue(&builder, t.fields[i].Type, values[i]); err != nil {
+			return fmt.Errorf("couldn't print field '%s' as CSV: %w", t.fields[i].Name, err)
+		}
 		row[i] = builder.String()
 		builder.Reset()
 	}
 	return t.writer.Write(row)
 }
 
-func FormatCSVValue(builder *strings.Builder, value octosql.Value) {
+// FormatCSVValue writes the text of a CSV field. Lists, objects and tuples have no CSV notation
+// of their own: the field holds their JSON text (the CSV writer quotes it as needed).
+func FormatCSVValue(builder *strings.Builder, t octosql.Type, value octosql.Value) error {
 	switch value.TypeID {
 	case octosql.TypeIDNull:
 	case octosql.TypeIDInt:
@@ -61,9 +65,16 @@ func FormatCSVValue(builder *strings.Builder, value octosql.Value) {
 		builder.WriteString(value.Time.Format(time.RFC3339))
 	case octosql.TypeIDDuration:
 		builder.WriteString(fmt.Sprint(value.Duration))
+	case octosql.TypeIDList, octosql.TypeIDStruct, octosql.TypeIDTuple:
+		data, err := ValueToJson(nil, t, value)
+		if err != nil {
+			return err
+		}
+		builder.Write(data)
 	default:
 		panic("invalid value type to print in CSV: " + value.TypeID.String())
 	}
+	return nil
 }
 
 func (t *CSVFormatter) Close() error {
